@@ -149,7 +149,7 @@ class Check:
             cov["cross_solver"] = xs
             for d in xs.get("disagreements", []):
                 self.inconclusive.append("solver disagreement on %s: %s says %s, z3 5.1.0 says %s" % tuple(d))
-        cov.update({k: v for k, v in self.extra.items() if k not in ("cross_solver", "setext_accept_polys")})
+        cov.update({k: v for k, v in self.extra.items() if k not in ("cross_solver", "setext_accept_polys", "setext_reject_polys")})
         ev = dict(property_id=self.pid, tier=self.tier, seed=self.seed, level=self.level, coverage=cov,
                   assumptions=self.assumptions, wall_s=round(wall, 2), violations=len(self.violations))
         os.makedirs(os.path.join(VERIF, "evidence"), exist_ok=True)
